@@ -144,12 +144,18 @@ def expected(tree, pats, boxroot, recursive, auto=False):
         walk[rel] = sorted(os.path.basename(r) for r, d in ents if not d and dirmodel.is_cmake(r) and not excluded(r, False))
         if auto and not walk[rel] and any(not d and r.endswith(".cmake") for r, d in ents):
             raise Ambiguous(rel)
+        if auto and walk[rel] and not any(f.endswith(".cmake") for f in walk[rel]):
+            # only files with a mixed-case extension are left: the statements cover those "next to at least one lower-case
+            # .cmake file where auto-exclusion applies" - not judged
+            raise Ambiguous(rel)
         if recursive:
             for r, d in ents:
                 if d and not excluded(r, True):
                     if auto:
                         sub = [(r2, d2) for r2, d2 in tree.entries() if os.path.dirname(r2) == r and not d2]
                         kept = [r2 for r2, _ in sub if r2.endswith(".cmake") and not excluded(r2, False)]
+                        if not kept and any(dirmodel.is_cmake(r2) and not excluded(r2, False) for r2, _ in sub):
+                            raise Ambiguous(r)      # (same: only mixed-case extensions are left in that directory)
                         if not kept:
                             if any(r2.endswith(".cmake") for r2, _ in sub):
                                 raise Ambiguous(r)
